@@ -147,6 +147,8 @@ struct Cover {
     distinct_iter_orders: HashSet<u64>,
     distinct_outputs: HashSet<u64>,
     distinct_interleavings: HashSet<u64>,
+    /// runs of the batch that the wall-clock budget did not allow
+    requested_not_run: u64,
     dir_first: HashSet<String>,
     dir_last: HashSet<String>,
     map_first: HashSet<u64>,
@@ -180,6 +182,7 @@ impl Cover {
         self.distinct_iter_orders.extend(o.distinct_iter_orders);
         self.distinct_outputs.extend(o.distinct_outputs);
         self.distinct_interleavings.extend(o.distinct_interleavings);
+        self.requested_not_run += o.requested_not_run;
         self.dir_first.extend(o.dir_first);
         self.dir_last.extend(o.dir_last);
         self.map_first.extend(o.map_first);
@@ -310,12 +313,16 @@ fn make_mode(batch: Batch, seed: u64, gen: Gen, i: u64) -> world::Mode {
     }
 }
 
-fn run_batch(ctx: &Arc<Ctx>, gen: Gen, seed: u64, runs: u64, threads: u64, sample_stride: u64) -> Cover {
-    run_batch_of(ctx, Batch::Random, gen, seed, runs, threads, sample_stride)
+fn run_batch(ctx: &Arc<Ctx>, gen: Gen, seed: u64, runs: u64, threads: u64, sample_stride: u64, budget: std::time::Duration) -> Cover {
+    run_batch_of(ctx, Batch::Random, gen, seed, runs, threads, sample_stride, budget)
 }
 
-fn run_batch_of(ctx: &Arc<Ctx>, batch: Batch, gen: Gen, seed: u64, runs: u64, threads: u64, sample_stride: u64) -> Cover {
+/// `budget`: wall-clock allowance of the batch. A program that became expensive to run (threads,
+/// an external formatter, output that needs compiling) gets fewer runs, not an endless check; the
+/// evidence reports how many of the requested runs were executed.
+fn run_batch_of(ctx: &Arc<Ctx>, batch: Batch, gen: Gen, seed: u64, runs: u64, threads: u64, sample_stride: u64, budget: std::time::Duration) -> Cover {
     let mut handles = vec![];
+    let started = Instant::now();
     for t in 0..threads {
         let ctx = ctx.clone();
         handles.push(
@@ -326,6 +333,10 @@ fn run_batch_of(ctx: &Arc<Ctx>, batch: Batch, gen: Gen, seed: u64, runs: u64, th
                     let mut good: Vec<String> = vec![];
                     let mut i = t;
                     while i < runs {
+                        if started.elapsed() > budget {
+                            cov.requested_not_run += (runs - i + threads - 1) / threads;
+                            break;
+                        }
                         sim::set_label(Some(sim::RunLabel {
                             gen,
                             batch: if batch == Batch::Cover { "cover" } else { "random" },
@@ -374,7 +385,8 @@ fn run_batch_of(ctx: &Arc<Ctx>, batch: Batch, gen: Gen, seed: u64, runs: u64, th
 
 /// Non-gating exploration of hard I/O faults (DESIGN §4.4): what do the generators do when a read
 /// fails, a file is torn or corrupt, or the listing errors out? Outcomes are counted, never judged.
-fn run_fault_batch(ctx: &Arc<Ctx>, gen: Gen, seed: u64, runs: u64, threads: u64) -> BTreeMap<(&'static str, &'static str), u64> {
+fn run_fault_batch(ctx: &Arc<Ctx>, gen: Gen, seed: u64, runs: u64, threads: u64, budget: std::time::Duration) -> BTreeMap<(&'static str, &'static str), u64> {
+    let started = Instant::now();
     let n_reads: u64 = match gen {
         Gen::Layout => names_of(&ctx.image, "data/cldr-misc-full/main").len() as u64,
         Gen::Likely => 1,
@@ -390,6 +402,10 @@ fn run_fault_batch(ctx: &Arc<Ctx>, gen: Gen, seed: u64, runs: u64, threads: u64)
                     let mut good: Vec<String> = vec![];
                     let mut i = t;
                     while i < runs {
+                        if started.elapsed() > budget {
+                            *m.entry(("-", "not_run_wall_clock_budget")).or_default() += (runs - i + threads - 1) / threads;
+                            break;
+                        }
                         let mut r = rng::Rng::new(rng::run_seed(seed, gen.stream() + 16, i));
                         let kind = world::HardKind::ALL[r.below(world::HardKind::ALL.len() as u64) as usize];
                         let plan = world::HardPlan {
@@ -725,14 +741,20 @@ fn cmd_check(a: &Args) -> i32 {
     let ctx = Arc::new(build_ctx(&rf, image.clone(), comp));
 
     // ---- simulation batches
+    // one run of each program under the all-default schedule on this thread first: settles, before
+    // sixteen workers start, whether the programs need the thread scheduler (sim::USE_SHUTTLE)
+    for g in [Gen::Layout, Gen::Likely] {
+        let _ = sim::execute(g, &ctx.image, sim::replay_mode(&[]), false, false);
+    }
     let stride_layout = (layout_runs / 512).max(1);
     let t_sim = Instant::now();
     // deterministic adjacency-covering family first (seed-independent), then the seeded search
     let n_dir = names_of(&ctx.image, "data/cldr-misc-full/main").len();
     let cover_runs = if a.opts.get("cover").map(|s| s.as_str()) == Some("off") { 0 } else { world::zigzag_family_size(n_dir) as u64 };
-    let cvr = run_batch_of(&ctx, Batch::Cover, Gen::Layout, seed, cover_runs, threads, 64);
-    let lay = run_batch(&ctx, Gen::Layout, seed, layout_runs, threads, stride_layout);
-    let mut lik = run_batch(&ctx, Gen::Likely, seed, likely_runs, threads.min(likely_runs.max(1)), 1);
+    let secs = |q: u64, t: u64| std::time::Duration::from_secs(opt_u64(a, "budget-s", if tier == "quick" { q } else { t }));
+    let cvr = run_batch_of(&ctx, Batch::Cover, Gen::Layout, seed, cover_runs, threads, 64, secs(60, 600));
+    let lay = run_batch(&ctx, Gen::Layout, seed, layout_runs, threads, stride_layout, secs(150, 3000));
+    let mut lik = run_batch(&ctx, Gen::Likely, seed, likely_runs, threads.min(likely_runs.max(1)), 1, secs(60, 600));
     // today's generate_likelysubtags meets no nondeterminism behind a seam (one file, no hash
     // container, no thread): a handful of runs is all there is to explore. The moment it does meet
     // some (a rewritten generator), it gets a seeded search of its own.
@@ -747,7 +769,7 @@ fn cmd_check(a: &Args) -> i32 {
     if likely_escalated && a.opts.get("likely-runs").is_none() {
         let n = opt_u64(a, "likely-nd-runs", if tier == "quick" { 3_000 } else { 300_000 });
         println!("generate_likelysubtags meets nondeterminism behind a seam ({} decision points in {} runs): seeded search over {} runs", likely_choice_points, lik.runs, n);
-        lik = run_batch(&ctx, Gen::Likely, seed, n, threads, (n / 256).max(1));
+        lik = run_batch(&ctx, Gen::Likely, seed, n, threads, (n / 256).max(1), secs(90, 1800));
     }
     let sim_wall = t_sim.elapsed().as_secs_f64();
     // ---- fidelity cross-check: the real binaries, run for real (no seam), must print what the
@@ -780,8 +802,13 @@ fn cmd_check(a: &Args) -> i32 {
     }
     println!("real re-runs of the generator binaries (fidelity cross-check): {} done, {} mismatching ({})", real_done, real_viol.len(), real_note);
     let fault_runs = opt_u64(a, "fault-runs", if tier == "quick" { 6_000 } else { 300_000 });
-    let hf_lay = run_fault_batch(&ctx, Gen::Layout, seed, fault_runs, threads);
-    let hf_lik = run_fault_batch(&ctx, Gen::Likely, seed, (fault_runs / 100).max(12), threads);
+    let hf_lay = run_fault_batch(&ctx, Gen::Layout, seed, fault_runs, threads, secs(30, 600));
+    let hf_lik = run_fault_batch(&ctx, Gen::Likely, seed, (fault_runs / 100).max(12), threads, secs(30, 600));
+    for (name, c) in [("covering family", &cvr), ("generate_layout seeded search", &lay), ("generate_likelysubtags seeded search", &lik)] {
+        if c.requested_not_run > 0 {
+            println!("NOTE: {}: {} of the requested runs were not executed (wall-clock budget of the batch; the program has become expensive to run)", name, c.requested_not_run);
+        }
+    }
     let (dn_l, dbad_l) = determinism_recheck(&ctx, Gen::Layout, seed, &lay.sample_digests, threads);
     let (dn_k, dbad_k) = determinism_recheck(&ctx, Gen::Likely, seed, &lik.sample_digests, threads.min(4));
     println!(
@@ -965,6 +992,7 @@ fn cmd_check(a: &Args) -> i32 {
             "samples": samples,
             "exhaustive": false,
             "simulated_runs": { "generate_layout_seeded_search": lay.runs, "generate_layout_adjacency_covering_family": cvr.runs, "generate_likelysubtags": lik.runs },
+            "requested_runs_not_executed_wall_clock_budget": { "generate_layout_seeded_search": lay.requested_not_run, "generate_layout_adjacency_covering_family": cvr.requested_not_run, "generate_likelysubtags": lik.requested_not_run },
             "adjacency_covering_family": {
                 "note": "deterministic, seed-independent batch: Walecki zigzag decomposition of K_n into Hamiltonian paths, each walked both ways, applied to the read_dir order and (over the keys in canonical order) to the iteration order of every HashMap/HashSet; guarantees every ordered pair (A immediately before B) and every entry first / last",
                 "runs": cvr.runs,
